@@ -29,7 +29,7 @@ func (C06) Info() core.Info {
 		Assumptions: []string{
 			"depth budget 400 library frames and 2,000,000 simulated steps per operation: an order of magnitude above the deepest legal run measured on this tree (evidence: max_depth_seen); exceeding it is reported as divergence",
 		},
-		Probes:    []string{"c06_ops", "c06_repeat_positional", "c06_malformed_option", "c06_generator_fault", "c06_redefine_ops", "c06_convert_ops", "c06_cyclic_worlds", "fault_fired_conv_error", "s1_nonidentity_perms"},
+		Probes:    []string{"c06_ops", "c06_repeat_positional", "c06_malformed_option", "c06_generator_fault", "c06_redefine_ops", "c06_convert_ops", "c06_cyclic_worlds", "c06_double_pointer_rejected_at_construction", "fault_fired_conv_error", "s1_nonidentity_perms"},
 		Real:      realComponents,
 		Simulated: simComponents,
 	}
@@ -62,6 +62,13 @@ func (C06) Gen(r *simrt.RNG, tier string) core.Case {
 	}
 	genGeneralOps(r, &w)
 	genFaults(r, &w)
+	// a doubly indirected marker struct as parameter: documented as rejected at construction
+	if r.Chance(1, 25) {
+		pi := r.Intn(len(w.Parties))
+		if w.Parties[pi].InForm == world.FormStruct || w.Parties[pi].InForm == world.FormPtrStruct {
+			w.Parties[pi].InForm = world.FormPtrPtrStruct
+		}
+	}
 	// malformed options
 	if r.Chance(1, 6) {
 		kinds := []string{world.ArgNilOpt, world.ArgNilValue, world.ArgNonFunc, world.ArgNilFunc, world.ArgNilConv}
@@ -141,6 +148,11 @@ func (C06) Run(c core.Case, ctx *core.Ctx) []core.Violation {
 		rt, sim := execWorld(&w, ctx, k)
 		if rt.InstErr != nil {
 			ctx.St.Inc("inst_rejected")
+			for _, p := range w.Parties {
+				if p.InForm == world.FormPtrPtrStruct {
+					ctx.St.Inc("c06_double_pointer_rejected_at_construction")
+				}
+			}
 			finish(ctx, rt, sim)
 			return nil
 		}
